@@ -160,8 +160,124 @@ def _uses_columns(f, pname):
     return kinds
 
 
+def conversions_agree(ctx, rule="C13a-conversion-agrees"):
+    """Sibling agreement: the whole-file read and the chunked read of the
+    Parquet reader turn Arrow data into frames with the same conversion
+    (same arguments of to_pandas): otherwise the two ways of reading one
+    table give frames with different dtypes / missing-value behaviour, and
+    code that was checked against one (the NaN scan, the label conversion)
+    meets the other."""
+    from ..proto import Calls
+    prog = ctx.prog
+    cls = prog.cls(TD + "ParquetFileReader")
+    forms = {}
+    for m in ("read", "get_chunked_data_iterator"):
+        f = cls.methods.get(m)
+        ctx.require(f is not None, f"{TD}ParquetFileReader.{m} not defined")
+        cl = Calls(prog, f)
+        got = cl.mcalls("to_pandas")
+        ctx.require(got, f"{f.qual}: no Arrow -> pandas conversion found")
+        forms[m] = sorted({(tkey_(t[3]), tkey_(tuple(sorted(t[4]))))
+                           for t, _n in got})
+    ctx.check(forms["read"] == forms["get_chunked_data_iterator"], rule,
+              cls.methods["get_chunked_data_iterator"],
+              "read() and the chunk iterator convert Arrow data with the "
+              "same to_pandas(...) arguments",
+              f"read() converts with {forms['read']}, the chunk iterator "
+              f"with {forms['get_chunked_data_iterator']}: chunked and "
+              "whole reading of one file give frames of different dtypes "
+              "(missing values, labels and comparisons behave differently)",
+              node=cls.methods["get_chunked_data_iterator"].node)
+
+
+def tkey_(t):
+    from ..defuse import key as _k
+    return _k(("tuple", tuple(t))) if isinstance(t, tuple) and (
+        not t or isinstance(t[0], tuple)) else _k(t)
+
+
+def _select_iff_given(ctx, f, pname):
+    """Sink-driven: every value the method returns or yields, with the
+    conditions under which it does (statement-level tests and conditional
+    expressions alike), evaluated for "columns is None" true and false."""
+    from ..chunks import Unknown, ev
+    prog = ctx.prog
+    T = Terms(DefUse(prog, f))
+    cfg = CFG(f.node)
+    P = ("param", pname)
+
+    def is_select(t):
+        return t[0] == "sub" and t[2] == P
+
+    alts = []       # (conditions, value term, node)
+
+    def expand(t, conds, node):
+        if t[0] == "ifexp":
+            c, o = t[1], True
+            while c[0] == "un" and c[1] == "not":
+                c, o = c[2], not o
+            expand(t[2], conds + [(c, o)], node)
+            expand(t[3], conds + [(c, not o)], node)
+        elif t[0] == "phi":
+            for x in t[1]:
+                expand(x, conds, node)
+        else:
+            alts.append((conds, t, node))
+
+    for n in walk_own(f.node):
+        if isinstance(n, (ast.Return, ast.Yield)) and n.value is not None:
+            expand(T.of(n.value), list(cond_terms(cfg, T, cfg.stmt_of(n))),
+                   n)
+    if not any(is_select(t) for _c, t, _n in alts):
+        return          # the list is forwarded, nothing is selected here
+    NONE = ("const", None)
+
+    def possible(conds, is_none):
+        def atoms(t):
+            if t[0] == "cmp" and t[1] in ("is", "is not", "==", "!=") and \
+                    {t[2], t[3]} == {P, NONE}:
+                return is_none if t[1] in ("is", "==") else not is_none
+            if t == P:
+                if is_none:
+                    return None
+                raise KeyError(t)
+            raise KeyError(t)
+        for c, o in conds:
+            try:
+                if bool(ev(c, atoms)) != o:
+                    return False
+            except (Unknown, KeyError, TypeError):
+                continue        # another test: either way
+        return True
+
+    when_none = [(t, n) for c, t, n in alts if possible(c, True)]
+    when_list = [(t, n) for c, t, n in alts if possible(c, False)]
+    bad_none = [n for t, n in when_none if is_select(t)]
+    bad_list = [n for t, n in when_list if not is_select(t)]
+    frames_none = {tkey_(t) for t, _n in when_none if not is_select(t)}
+    def phi_alts(t):
+        return [y for x in t[1] for y in phi_alts(x)] if t[0] == "phi" \
+            else [t]
+    frames_list = {tkey_(x) for t, _n in when_list if is_select(t)
+                   for x in phi_alts(t[1])}
+    ok = not bad_none and not bad_list and frames_none == frames_list
+    node = (bad_none + bad_list + [f.node])[0]
+    ctx.check(ok, "C13a-select-iff-columns-given", f,
+              "the requested columns are selected iff a list was given, "
+              "from the frame that is returned otherwise",
+              ("with columns=None a value is subscripted by None; "
+               if bad_none else "")
+              + ("with a column list an unselected frame is handed out; "
+                 if bad_list else "")
+              + (f"selected from {sorted(frames_list)} but returned "
+                 f"unselected {sorted(frames_none)}"
+                 if frames_none != frames_list else ""),
+              node=node)
+
+
 def _readers(ctx):
     prog = ctx.prog
+    conversions_agree(ctx)
     n = 0
     for cq in READERS:
         cls = prog.cls(cq)
@@ -186,31 +302,9 @@ def _readers(ctx):
                       "the requested column list reaches the result "
                       "(subscript or forwarded to the inner reader/API)",
                       "the 'columns' argument is ignored", node=f.node)
-            # subscript selections happen exactly on the non-None path
-            for e in walk_own(f.node):
-                if isinstance(e, ast.IfExp) and any(
-                        isinstance(x, ast.Subscript) and isinstance(
-                            x.slice, ast.Name) and x.slice.id == pname
-                        for x in ast.walk(e)):
-                    t = ast.unparse(e.test)
-                    sel_in_else = any(
-                        isinstance(x, ast.Subscript) and isinstance(
-                            x.slice, ast.Name) and x.slice.id == pname
-                        for x in ast.walk(e.orelse))
-                    ok = (t == f"{pname} is None" and sel_in_else) or (
-                        t == f"{pname} is not None" and not sel_in_else)
-                    base_ok = True
-                    if ok and t == f"{pname} is None":
-                        base_ok = isinstance(
-                            e.orelse, ast.Subscript) and ast.unparse(
-                                e.orelse.value) == ast.unparse(e.body)
-                    ctx.check(ok and base_ok,
-                              "C13a-select-iff-columns-given", f,
-                              f"'{ast.unparse(e)[:60]}' selects the "
-                              "requested columns iff a list was given, "
-                              "from the same frame",
-                              "selection and None test have the wrong "
-                              "polarity or use different frames", node=e)
+            # the selection frame[columns] happens exactly when a list was
+            # given, and from the frame that is returned otherwise
+            _select_iff_given(ctx, f, pname)
         # siblings: whole-file read and chunked read of one reader must
         # agree on whether the requested order is restored by a final
         # selection frame[columns]
@@ -582,8 +676,63 @@ def _to_csv_kwargs(prog, t):
     return kw
 
 
+def write_overrides_start_fresh(ctx, rule="C13e-write-starts-fresh"):
+    """Sibling agreement over every ``write`` of the writer hierarchy: a
+    whole-table write never adds to what a file already holds.  Each
+    definition must (a) follow the base protocol - initialize() before the
+    first append_data() on every path -, or (b) hand the data to the
+    ``write`` of a wrapped writer, or (c) produce the file with one
+    truncating library call on the writer's own file name."""
+    prog = ctx.prog
+    base = TD + "TabularDataWriter"
+    classes = [prog.cls(base)] + prog.subclasses(base)
+    n = 0
+    for cls in classes:
+        w = cls.methods.get("write")
+        if w is None:
+            continue
+        n += 1
+        c = Calls(prog, w)
+        DATA = ("param", w.params[1]) if len(w.params) > 1 else None
+        I = c.mcalls("initialize", SELF)
+        A = c.mcalls("append_data", SELF)
+        inner = [x for x in c.mcalls("write")
+                 if x[0][1] != SELF and any(
+                     y == SELF for y in walk_term(x[0][1]))]
+        whole = []
+        for t, node in c.items:
+            if t[0] == "mcall" and t[2] in ("to_parquet", "to_csv",
+                                            "to_json") and t[1] == DATA:
+                kw = dict(t[4])
+                mode = kw.get("mode", ("const", "w"))
+                tgt = t[3][0] if t[3] else kw.get("path") or kw.get(
+                    "path_or_buf")
+                if mode == ("const", "w") and tgt == (
+                        "attr", SELF, "file_name"):
+                    whole.append((t, node))
+        if A:
+            ok = bool(I) and c.before(I, A)
+            why = "append_data() is reached without initialize(): rows " \
+                  "are added to whatever the file already holds"
+        elif inner:
+            ok, why = c.on_every_path(inner), \
+                "some path does not hand the data to the wrapped writer"
+        elif whole:
+            ok, why = c.on_every_path(whole), \
+                "some path does not write the table"
+        else:
+            ok, why = False, ("write() neither follows initialize / append "
+                              "/ finalize, nor delegates, nor writes the "
+                              "file in one truncating call")
+        ctx.check(ok, rule, w,
+                  f"{cls.qual.rsplit('.', 1)[-1]}.write starts from an "
+                  "empty file", why, node=w.node)
+    ctx.floor(rule + "-definitions", n, 1)
+
+
 def _lifecycle(ctx):
     prog = ctx.prog
+    write_overrides_start_fresh(ctx)
     FNAME = ("attr", SELF, "file_name")
     # --- write() = validate, initialize, append, finalize
     w = prog.func(TD + "TabularDataWriter.write")
